@@ -189,8 +189,72 @@ def rule_m(F):
     return res
 
 
+def rule_v(F):
+    """C11.V: converting a runtime value to its owned form fails only for values that cannot be saved. If the conversion
+    carries a set of tables 'being converted' to refuse self-containing tables, that set must be scoped to the current path:
+    every push onto it is matched by a pop (or truncate) on every non-error path of the same function. A set that only grows
+    holds every table seen so far, and an acyclic value in which one table is referenced twice (a DAG) is refused."""
+    from cao.facts import DefUse, callee_names, op_local
+    from cao import mirutil as mu
+    from cao import framebal as fb
+    res = []
+    fns = [f for f in F.fns if f.mir and not f.is_closure and f.path.startswith("value::") and
+           ("OwnedValue" in f.path or "owned" in f.path.lower())]
+    if not fns:
+        raise AnchorMissing("conversion functions of OwnedValue in value.rs")
+    n = 0
+    for f in fns:
+        du = DefUse(f)
+        cfg = f.cfg
+        pushes, pops = [], set()
+        for bi, t in mu.calls(f):
+            nm = callee_names(t["func"])
+            if not t["args"]:
+                continue
+            a0 = op_local(t["args"][0])
+            if a0 is None:
+                continue
+            kind, payload = du.trace_back(a0)
+            is_param = (kind == "arg") or (kind == "place" and 1 <= payload["l"] <= f.mir["arg_count"] and not [e for e in payload["p"] if e["k"] != "deref"])
+            if not is_param:
+                continue
+            if any(x.endswith("Vec::push") or x.endswith("::insert") for x in nm):
+                pushes.append((bi, t))
+            if any(x.endswith("Vec::pop") or x.endswith("Vec::truncate") or x.endswith("::remove") or x.endswith("Vec::swap_remove") for x in nm):
+                pops.add(bi)
+        for k, (bi, t) in enumerate(pushes):
+            n += 1
+            key = "C11/V/%s/visited-set-is-path-scoped%s" % (f.name, "" if k == 0 else "#%d" % k)
+            oks = [b for b in cfg.return_blocks()]
+            # success exits: returns reached without passing an error block
+            leak = False
+            if t.get("target") is not None:
+                stack, seen = [t["target"]], set()
+                while stack:
+                    b = stack.pop()
+                    if b in seen or b in pops or fb._error_block(f, b):
+                        continue
+                    seen.add(b)
+                    if f.blocks[b]["term"]["k"] == "return":
+                        leak = True
+                        break
+                    stack.extend(s_ for s_ in cfg.succ[b])
+            if leak:
+                res.append(bad("C11.V", key, f.loc(t.get("ln")),
+                               "%s records the table it is converting in the caller's set and can return successfully without taking it out "
+                               "again: the set holds every table seen so far, not the tables on the current path, so a value in which the same "
+                               "table is reachable twice without a cycle (res.spawn = home; res.target = home) is refused as if it contained itself"
+                               % f.name))
+            else:
+                res.append(ok("C11.V", key, f.loc(t.get("ln")), "the entry is removed again on every successful path"))
+    if n == 0:
+        res.append(ok("C11.V", "C11/V/no-visited-set", fns[0].loc(), "the conversion keeps no set of visited tables (self-containing tables: known finding C04/R)"))
+    return res
+
+
 RULES = [
     Rule("C11.S", rule_s, 30, "derived Serialize impls write every field (Card.id excepted)", configs=("default", "release")),
+    Rule("C11.V", rule_v, 1, "the conversion to the owned form refuses only what cannot be saved (visited sets are path-scoped)", configs=("default", "release")),
     Rule("C11.M", rule_m, 4, "hand-written map impls are symmetric", configs=("default", "release")),
     Rule("C11.K", shared(_c13.rule_k, "C13.K", "C11.K"), 2, "decoded HandleTables keep a free slot (shared with C13.K)", configs=("default", "release")),
     Rule("C11.L", shared(_c12.rule_k, "C12.K", "C11.L"), 2, "decoded CaoHashMaps keep a free slot (shared with C12.K)", configs=("default", "release")),
